@@ -524,12 +524,19 @@ func joinSet(v interface{}, operator string) (string, error) {
 func parseOperand(o interface{}, noWrap bool, negation bool) (string, error) {
 	switch operandType := o.(type) {
 	case string:
+		if negation {
+
+			return "!(" + operandType + ")", nil
+		}
 
 		return operandType, nil
 	case float64:
 
 		return fmt.Sprint(operandType), nil
 	case bool:
+		if negation {
+			operandType = !operandType
+		}
 
 		if operandType {
 
@@ -544,13 +551,13 @@ func parseOperand(o interface{}, noWrap bool, negation bool) (string, error) {
 
 			return expr, err
 		}
+		if negation {
+			// the unary form negates every kind of operand, also obj/const/call ones that need no brackets
+			return "!(" + expr + ")", nil
+		}
 		if expNoWrap || noWrap {
 
 			return expr, nil
-		}
-
-		if negation {
-			return "!(" + expr + ")", nil
 		}
 
 		return "(" + expr + ")", nil
